@@ -373,6 +373,10 @@ def parse_node(node, fname, vals, kinds, opts, ctx, cur, P0, path):
     if k == 'em':
         ctx.starts[path] = cur
         return None, cur
+    if k == 'user':
+        ctx.starts[path] = cur
+        bs = ctx.need(cur, node['n'], path)
+        return bytes(bs).hex(), cur + node['n']
     raise ValueError(k)
 
 
@@ -463,6 +467,16 @@ def encode_pkt(P, pv, out, path, pkts):
 
 def encode_node(node, fname, v, vals, kinds, opts, out, P0, path, pkts):
     k = node['k']
+    if k == 'user':
+        out.placed[path] = out.cur
+        try:
+            chunk = bytes.fromhex(v)
+        except (TypeError, ValueError):
+            raise Fail('hexadecimal value %r' % (v,))
+        if len(chunk) != node['n']:
+            raise Fail('%d bytes expected, %r has %d' % (node['n'], v, len(chunk)))
+        out.put(chunk)
+        return
     if k == 'int':
         out.placed[path] = out.cur
         out.put(int_encode(v, node['n'], node.get('signed'), is_big(node.get('end'), opts)))
@@ -536,6 +550,8 @@ def defaults(P):
 def default_of(node):
     k = node['k']
     d = node.get('default')
+    if k == 'user':
+        return d if d is not None else '00' * node['n']
     if k in ('int', 'bits'):
         return 0 if d is None else d
     if k == 'data':
